@@ -37,8 +37,10 @@ enum {
 
 static size_t s_advance_and_clamp_index(size_t current_index, int amount, size_t maximum) {
     size_t next_index = current_index + amount;
-    if (next_index > maximum) {
-        next_index = maximum;
+    if (next_index >= maximum) {
+        /* The output was truncated: (v)snprintf() stored (maximum - current_index - 1) characters followed by a
+         * terminating NUL, so the next write has to start on that NUL, not behind it. */
+        next_index = maximum > 0 ? maximum - 1 : 0;
     }
 
     return next_index;
@@ -61,7 +63,8 @@ int aws_format_standard_log_line(struct aws_logging_standard_formatting_data *fo
         return AWS_OP_ERR;
     }
 
-    if (formatting_data->total_length == 0) {
+    /* room for at least the newline and the terminating NUL */
+    if (formatting_data->total_length < 2) {
         return aws_raise_error(AWS_ERROR_INVALID_ARGUMENT);
     }
 
